@@ -406,7 +406,9 @@ func msgFamilies(w *world) []*Family {
 			for _, s := range ss {
 				emit(func() Case { return one(fmt.Sprintf("msg/%02x/sample/%s", code, s.name), code, s.payload, opt) })
 				if code == 0x06 {
-					emit(func() Case { return one(fmt.Sprintf("msg/%02x/sample/%s/then-the-node-mines", code, s.name), code, s.payload, playOpt{mine: true}) })
+					emit(func() Case {
+						return one(fmt.Sprintf("msg/%02x/sample/%s/then-the-node-mines", code, s.name), code, s.payload, playOpt{mine: true})
+					})
 				}
 			}
 		})
@@ -416,11 +418,15 @@ func msgFamilies(w *world) []*Family {
 					if !th && !s.quick && cut%7 != 0 {
 						continue
 					}
-					emit(func() Case { return one(fmt.Sprintf("msg/%02x/trunc/%s/cut=%04d", code, s.name, cut), code, s.payload[:cut], opt) })
+					emit(func() Case {
+						return one(fmt.Sprintf("msg/%02x/trunc/%s/cut=%04d", code, s.name, cut), code, s.payload[:cut], opt)
+					})
 				}
 				// and with trailing bytes
 				for _, extra := range [][]byte{{0x00}, {0x80}, {0xc0}, bytes.Repeat([]byte{0xff}, 9)} {
-					emit(func() Case { return one(fmt.Sprintf("msg/%02x/trunc/%s/trailing=%x", code, s.name, extra), code, append(append([]byte{}, s.payload...), extra...), opt) })
+					emit(func() Case {
+						return one(fmt.Sprintf("msg/%02x/trunc/%s/trailing=%x", code, s.name, extra), code, append(append([]byte{}, s.payload...), extra...), opt)
+					})
 				}
 			}
 		})
@@ -432,7 +438,9 @@ func msgFamilies(w *world) []*Family {
 				}
 				for pos := range s.payload {
 					for _, v := range boundaryVals(s.payload[pos], th) {
-						emit(func() Case { return one(fmt.Sprintf("msg/%02x/mut/%s/pos=%04d/val=%02x", code, s.name, pos, v), code, withByte(s.payload, pos, v), opt) })
+						emit(func() Case {
+							return one(fmt.Sprintf("msg/%02x/mut/%s/pos=%04d/val=%02x", code, s.name, pos, v), code, withByte(s.payload, pos, v), opt)
+						})
 					}
 				}
 			}
@@ -454,7 +462,9 @@ func msgFamilies(w *world) []*Family {
 						if byte(v) == s.payload[pos] || isB[byte(v)] {
 							continue
 						}
-						emit(func() Case { return one(fmt.Sprintf("msg/%02x/mut256/%s/pos=%04d/val=%02x", code, s.name, pos, v), code, withByte(s.payload, pos, byte(v)), opt) })
+						emit(func() Case {
+							return one(fmt.Sprintf("msg/%02x/mut256/%s/pos=%04d/val=%02x", code, s.name, pos, v), code, withByte(s.payload, pos, byte(v)), opt)
+						})
 					}
 				}
 			}
@@ -476,7 +486,9 @@ func msgFamilies(w *world) []*Family {
 							}
 							b := withByte(s.payload, pos, v1)
 							b[pos+1] = v2
-							emit(func() Case { return one(fmt.Sprintf("msg/%02x/mut2/%s/pos=%04d/val=%02x%02x", code, s.name, pos, v1, v2), code, b, opt) })
+							emit(func() Case {
+								return one(fmt.Sprintf("msg/%02x/mut2/%s/pos=%04d/val=%02x%02x", code, s.name, pos, v1, v2), code, b, opt)
+							})
 						}
 					}
 				}
